@@ -62,6 +62,10 @@ CHECKS = {
    text="TLC enumerates the case space of GenReduce (functions, element types, argument kinds, shapes, sign patterns, positions of a single extreme element, with the integer data part of the state) and checks exactness preconditions and fold theorems on every case. Every recorded call is judged by the L1 operators of Reduce.tla: exact integer equality for sum, product, min, max (value and membership), inner, trace, closed-form determinants (against Bareiss) and predicates; an integer bracket that pins the sum of squares for norm; a condition-scaled backward-error bound for LU and QR determinants on diagonally dominant integer matrices. The L2 model MC_ReduceDesign proves the vector-accumulator, scalar-tail and horizontal-step scheme refines the folds exactly for neutral seeds, for every width and residue.",
    note="Bounded: sizes 1..35 and four rank-2/3 shapes, determinant sizes <= 6 (8 thorough), small integer data so that every evaluation order is exact. D4 (none_of = any_of) and D20 (QR determinant = |det|) are listed known findings recognised as named deviations; integer norm, integer LU/QR determinants and determinant(Tensor<T,1,1>) with Simple are outside the domain.",
    technique="TLA+ L1 fold semantics + L2 accumulator model checked by TLC + TLC-enumerated plan + TLC trace validation"),
+ "C08": dict(level=MC, design="3/C08",
+   text="Every SIMDVector operation the library offers, for six element types and every ABI available under SSE2, AVX2 and AVX-512 (thorough: all six ISAs, C++17, -O3), is run on the real API on TLC-enumerated cases and every result is judged lane by lane by TLC against an explicit lane semantics (Simd.tla): lane-wise maps, folds, set/reverse order, memory frames for loads/stores at every offset including all masks (exhaustive up to 8 lanes) and guard pages. Integer lanes are decided on their full range with exact two's-complement limb arithmetic in TLA+ (Word.tla); float specials against the recorded scalar-operation table; small exact data by integer arithmetic. An L2 model of the remainder-mask pipeline (maska fill, array_to_mask, declared mask widths, mask_to_array, AVX2 maskload order, complex split_mask) is model-checked exhaustively to refine L1 and bound to the code by Meta events.",
+   note="Bounded conformance checking, not a proof over all inputs: operand values are sampled (boundary cross-products, seeded random bit patterns; exhaustive unary 2^32 sweeps only in the thorough tier and only as a candidate filter whose candidates are judged by TLC). rcp/rsqrt are judged against an assumed 2^-11 bound (none is documented). The float table trusts the recorder's scalar C++ evaluation. Complex set() argument order is a listed known finding (D26).",
+   technique="TLA+ lane semantics + limb arithmetic + L2 mask model checked by TLC + TLC trace validation"),
 }
 NA_REASON = "check not built yet (work in progress in this session; see DESIGN.md section 3 for the planned model)"
 
